@@ -44,6 +44,15 @@ def gen_case(seed, extra=None):
                 seq.append(c)
             else:
                 seq.append(_gen_one(rng, seed + 1 + i))
+        side = _random.Random(f"sibling|{seed}")
+        if side.random() < 0.35 and not first["prog"].get("types"):
+            # a sibling of the first program (same names and conditions, other values / parameters) right after it
+            sib = gen.sibling(first["prog"], side)
+            if sib is not None:
+                c = copy.deepcopy(first)
+                c["prog"] = sib
+                c["seed"] = seed + 7
+                seq.insert(1, c)
         return {"kind": "sequence", "cases": seq, "seed": seed}
     return first
 
